@@ -41,6 +41,14 @@ CFG = {
 
 CODES = {
     101: 'a batch output (error kind / reported ids) differs from the reference spec',
+    151: 'sequential searches on a partially warm cache created by an earlier read transaction: a search failed with "point does not exist"',
+    152: 'sequential searches on a partially warm cache: a search failed with "transaction has ended"',
+    153: 'sequential searches on a partially warm cache: a search failed with another error',
+    154: 'sequential searches on a partially warm cache: a search did not return',
+    155: 'sequential searches on a partially warm cache: a search failed with "failed to get node ...: not found" -- it read through the bucket handle of a finished transaction although nothing ran concurrently',
+    156: 'sequential searches on a partially warm cache: a search returned the same point twice',
+    157: 'sequential searches on a partially warm cache: a returned point is not live, with that document, in the only committed version',
+    158: 'sequential searches on a partially warm cache, exact regime (pre-filter of 12 live points that carry the vector, limit 12): the answer is not exactly those points -- the search could not read some of them',
     161: 'concurrent reads only (no writer, cold start): a search failed with "point does not exist"',
     162: 'concurrent reads only: a search failed with "transaction has ended"',
     163: 'concurrent reads only: a search failed with another error',
